@@ -15,6 +15,7 @@ Renderings, re-derived independently from the record + str() of its values:
     Elected/Pending/Hopeful/Defeated lines list exactly the candidates in those states with str(tally), and the
     rule's totals lines (votes by status, non-transferable, residual, total, surplus, quota) equal sums recomputed
     from the action
+  * rendering twice gives the same text (renderings are functions of the record)
 """
 import json
 from fractions import Fraction
@@ -322,6 +323,14 @@ class C18(Check):
                 self.render_json(t, viol0)
                 self.render_dump(t, rule, viol0)
                 self.render_report(t, rule, viol0)
+                # rendering is a pure function of the record: a second rendering of the same election must be identical
+                d1 = t.E.dump()
+                if t.E.dump() != d1:
+                    viol0('dump-not-repeatable', 'dump() of the same election differs on the second call')
+                if acc.evaluations % 3 == 0:
+                    r1, j1 = t.E.report(), t.E.json()
+                    if t.E.report() != r1 or t.E.json() != j1 or t.E.dump() != d1:
+                        viol0('rendering-not-repeatable', 'report()/json()/dump() differ when called again on the same election')
             if not bad and t.ok():
                 acc.traces_validated += 1
             if common.nontrivial_trace(t):
